@@ -25,26 +25,23 @@ from bibtexparser.library import Library
 
 
 def make_stub(eng, method):
+    """deterministic converter: fails exactly on inputs starting with 'y', otherwise returns '<' + input + '>'.
+    (Being a function of its input, any caching inside the middleware must be transparent.)"""
     def conv(I, W, self, args, kwargs):
         s = args[0]
-        n = len(self.log)
-        b = eng.stub_bools[n] if n < len(eng.stub_bools) else None
-        if b is None:
-            raise AssertionError("stub called more often than planned")
-        if I.truth(W, b):
-            self.log.append((s, "raise"))
-            W.mut += 1
+        if not is_strlike(s):
+            raise PyRaise(TypeError("converter expects a string"))
+        cs = chars(s)
+        if len(cs) > 0 and I.truth(W, ch_eq(cs[0], "y")):
             raise PyRaise(RuntimeError("converter failed"))
-        self.log.append((s, "ok"))
-        W.mut += 1
-        return mk(("<",) + chars(s) + (">",))
+        return mk(("<",) + cs + (">",))
     return Stub("converter", {method: conv})
 
 
 def drv(mw, vals, inplace):
     e = M.Entry("article", "ek", [M.Field("title", vals[0]), M.Field("year", 1999),
                                   M.Field("author", NameParts(first=[vals[1]], last=[vals[2], vals[3]])),
-                                  M.Field("note", vals[4])], 3, "rawE")
+                                  M.Field("note", vals[4]), M.Field("pages", [10, 25]), M.Field("tags", [vals[7], "q"])], 3, "rawE")
     s = M.String("sk", vals[5], 1, "rawS")
     p = M.Preamble(vals[6], 2, "rawP")
     c = M.ExplicitComment("cc", 4, "rawC")
@@ -52,26 +49,24 @@ def drv(mw, vals, inplace):
     lib = Library([s, p, e, c, f])
     mw._allow_inplace_modification = inplace
     out = mw.transform(lib)
-    return out.blocks, mw._encoder.log if hasattr(mw, "_encoder") else mw._decoder.log, (s, p, e, c, f)
+    return out.blocks, None, (s, p, e, c, f)
 
 
 def check(res, vals, inplace, E):
-    blocks, log, orig = res
+    blocks, _log, orig = res
     s0, p0, e0, c0, f0 = orig
     conds = [len(blocks) == 5]
     if len(blocks) != 5:
         return conds, False
     s, p, e, c, f = blocks
-    # the converter is called once per text value, in library order: @string value, then the entry's
-    # title, the name parts (first, last...), note; never for the preamble / comments / keys
-    order = [5, 0, 1, 2, 3, 4]
-    conds.append(len(log) == len(order))
-    outcomes = {}
-    for pos, (inp, oc) in enumerate(log[:len(order)]):
-        conds.append(E(inp, vals[order[pos]]))
-        outcomes[order[pos]] = oc
-    exp = lambda i: (mk(("<",) + chars(vals[i]) + (">",)) if outcomes.get(i) == "ok" else vals[i])
-    # the preamble text (vals[6]) must never reach the converter; every text value exactly once
+    fails = [b_and(True, ch_eq(chars(v)[0], "y")) if len(chars(v)) else False for v in vals]
+
+    def converted(got, i):
+        """got is vals[i] if the converter fails on it, else the marked copy"""
+        if not is_strlike(got):
+            return False
+        wrapped = mk(("<",) + chars(vals[i]) + (">",))
+        return b_or(b_and(fails[i], E(got, vals[i])), b_and(b_not(fails[i]), E(got, wrapped)))
     # untouched blocks
     conds.append(isinstance(p, M.Preamble) and E(p.value, vals[6]) and p.raw == "rawP" and p.start_line == 2)
     conds.append(isinstance(c, M.ExplicitComment) and c.comment == "cc" and c.raw == "rawC" and c.start_line == 4)
@@ -81,72 +76,70 @@ def check(res, vals, inplace, E):
     else:
         conds.append(p is not p0 and c is not c0 and E(p0.value, vals[6]))
     # string block
-    s_failed = outcomes.get(5) == "raise"
     sb = s.ignore_error_block if isinstance(s, M.MiddlewareErrorBlock) else s
     conds.append(isinstance(sb, M.String) and sb.key == "sk" and sb.raw == "rawS" and sb.start_line == 1)
     if isinstance(sb, M.String):
-        conds.append(is_strlike(sb.value) and E(sb.value, exp(5)))
-    conds.append(isinstance(s, M.MiddlewareErrorBlock) == s_failed)
+        conds.append(converted(sb.value, 5))
+    s_err = isinstance(s, M.MiddlewareErrorBlock)
+    conds.append(fails[5] if s_err else b_not(fails[5]))
     # entry
-    e_failed = any(outcomes.get(i) == "raise" for i in (0, 1, 2, 3, 4))
+    e_failed = b_any(fails[i] for i in (0, 1, 2, 3, 4))
     eb = e.ignore_error_block if isinstance(e, M.MiddlewareErrorBlock) else e
-    conds.append(isinstance(e, M.MiddlewareErrorBlock) == e_failed)
+    e_err = isinstance(e, M.MiddlewareErrorBlock)
+    conds.append(e_failed if e_err else b_not(e_failed))
     ok = (isinstance(eb, M.Entry) and eb.entry_type == "article" and eb.key == "ek" and eb.raw == "rawE" and eb.start_line == 3
-          and [x.key for x in eb.fields] == ["title", "year", "author", "note"])
+          and [x.key for x in eb.fields] == ["title", "year", "author", "note", "pages", "tags"])
     conds.append(ok)
     if ok:
-        t, y, a, n = [x.value for x in eb.fields]
-        conds.append(is_strlike(t) and E(t, exp(0)))
+        t, y, a, n, pg, tg = [x.value for x in eb.fields]
+        conds.append(converted(t, 0))
         conds.append(y == 1999 and type(y) is int)
-        conds.append(isinstance(a, NameParts) and E(a.first, [exp(1)]) and E(a.last, [exp(2), exp(3)]) and a.von == [] and a.jr == [])
-        conds.append(is_strlike(n) and E(n, exp(4)))
-        if isinstance(e, M.MiddlewareErrorBlock):
+        conds.append(isinstance(a, NameParts) and len(a.first) == 1 and len(a.last) == 2 and a.von == [] and a.jr == []
+                     and b_all([converted(a.first[0], 1), converted(a.last[0], 2), converted(a.last[1], 3)]))
+        conds.append(converted(n, 4))
+        # list-valued fields are neither str nor NameParts: left alone
+        conds.append(isinstance(pg, list) and pg == [10, 25])
+        conds.append(isinstance(tg, list) and len(tg) == 2 and E(tg, [vals[7], "q"]))
+        if e_err:
             conds.append(isinstance(e.error, Exception) and e.raw == "rawE" and e.start_line == 3)
     if not inplace:
-        # input entry untouched
         conds.append(E([x.value for x in e0.fields if is_strlike(x.value)], [vals[0], vals[4]]) and E(s0.value, vals[5]))
-    return conds, e_failed or s_failed
+    return conds, (e_err or s_err)
 
 
-def native_replay(kind, vals, inplace, pattern):
-    """replay with a concrete converter that fails on the calls listed in `pattern`"""
+def native_replay(kind, vals, inplace):
+    """replay with a concrete converter implementing the same function of its input"""
     import logging
     logging.disable(logging.CRITICAL)
 
     class Conv:
-        def __init__(self):
-            self.log = []
-
         def _do(self, s):
-            n = len(self.log)
-            if n < len(pattern) and pattern[n]:
-                self.log.append((s, "raise"))
+            if not isinstance(s, str):
+                raise TypeError("converter expects a string")
+            if s.startswith("y"):
                 raise RuntimeError("converter failed")
-            self.log.append((s, "ok"))
             return "<" + s + ">"
         unicode_to_latex = _do
         latex_to_text = _do
-    conv = Conv()
     try:
-        mw = LatexEncodingMiddleware(encoder=conv) if kind == "enc" else LatexDecodingMiddleware(decoder=conv)
+        mw = LatexEncodingMiddleware(encoder=Conv()) if kind == "enc" else LatexDecodingMiddleware(decoder=Conv())
         res = drv(mw, vals, inplace)
     except Exception as ex:  # noqa
-        return {"input": [kind, vals, inplace, pattern], "observed": f"raised {type(ex).__name__}: {ex}", "expected": "error block, no exception"}
+        return {"input": [kind, vals, inplace], "observed": f"raised {type(ex).__name__}: {ex}", "expected": "error block, no exception"}
     conds, _ = check(res, vals, inplace, lambda a, b: a == b)
-    if all(bool(c) for c in conds):
+    if all((c is True) or (not isinstance(c, bool) and False) or bool(c) for c in conds):
         return None
     blocks = res[0]
-    return {"input": [kind, vals, inplace, pattern],
-            "observed": [(type(b).__name__, getattr(getattr(b, "ignore_error_block", b), "value", None)) for b in blocks[:1]] +
+    return {"input": [kind, vals, inplace],
+            "observed": [(type(b).__name__, repr(getattr(getattr(b, "ignore_error_block", b), "value", None))) for b in blocks[:1]] +
                         [(type(blocks[2]).__name__, [(f.key, repr(f.value)) for f in getattr(blocks[2], "ignore_error_block", blocks[2]).fields])],
-            "expected": "only text values converted, types kept, failures contained"}
+            "expected": "only text values converted (converter fails on values starting with 'y'), types kept, failures contained"}
 
 
 def task(kind, inplace):
     eng = Engine()
     rec = Recorder(eng)
-    eng.stub_bools = [eng.sym_bool(f"fail{i}") for i in range(8)]
-    vals = [eng.sym_str(f"v{i}_", 1, "xy") for i in range(7)]
+    vals = [eng.sym_str(f"v{i}_", 1, "xy") for i in range(8)]
     if kind == "enc":
         stub = make_stub(eng, "unicode_to_latex")
         mw = LatexEncodingMiddleware(encoder=stub)
@@ -157,8 +150,7 @@ def task(kind, inplace):
     worlds = eng.run(drv, [mw, vals, inplace])
     for W in worlds:
         def rp(m):
-            pat = [eng.model_value(m, b) for b in eng.stub_bools]
-            return native_replay(kind, eng.model_value(m, vals), inplace, pat)
+            return native_replay(kind, eng.model_value(m, vals), inplace)
         if W.exc is not None:
             rec.require(W, True, "no-exception", rp)
             continue
@@ -197,8 +189,8 @@ def task_ctor():
 
 def main():
     chk = Check("C18", __doc__)
-    chk.bounds = {"library": "String, Preamble, Entry(str, int, NameParts(first 1 word, last 2 words), str), ExplicitComment, ParsingFailedBlock; every text one symbolic character",
-                  "converter": "per call: returns '<'+input+'>' or raises, chosen by a fresh symbolic boolean (all 2^6 failure patterns)",
+    chk.bounds = {"library": "String, Preamble, Entry(str, int, NameParts(first 1 word, last 2 words), str, list of ints, list of str), ExplicitComment, ParsingFailedBlock; every text one symbolic character",
+                  "converter": "a function of its input: raises on values starting with 'y', else returns '<'+input+'>' (values are symbolic over {x,y}, so all 2^6 failure patterns and all equal-value patterns occur)",
                   "options": "encoder / decoder middleware x allow_inplace_modification in {True, False}; custom converter vs. option conflicts in the constructors"}
     chk.assumptions = ["the pylatexenc conversion itself is a stub: what it returns is arbitrary, so the round-trip clause decode(encode(t)) == t is NOT claimed (not encodable within reach: third-party, table/regex driven)",
                        "default-constructed middlewares (which build pylatexenc objects) are not interpreted; only the custom-converter path of the constructors is"]
